@@ -86,11 +86,26 @@ func vNewestConfigIndex(a *vAbsLog) uint64 {
 	return idx
 }
 
+// vInfo: the status report a GetInfo task would return now: the real Raft.info(), whose last-applied field is
+// answered by the FSM goroutine's real loop (run by the idle hook when info() waits for it) after everything that
+// was queued for the FSM before.
+func vInfo(r *Raft) Info {
+	vSetIdleHook(func() { vDrainFSM(r) })
+	return r.info()
+}
+
 func vAssertNI(r *Raft, a *vAbsLog, tag string) {
-	vAssert(r.fsm.index <= r.commitIndex, tag+"-applied-le-commit")
-	vAssert(r.commitIndex <= r.lastLogIndex, tag+"-commit-le-last")
-	vAssert(a.prev <= r.snaps.index && r.snaps.index <= r.lastLogIndex, tag+"-first-1-le-snapshot-le-last")
-	vAssert(r.configs.Committed.Index <= r.configs.Latest.Index, tag+"-committed-config-le-latest-config")
+	inf := vInfo(r)
+	// the report shows the node's state
+	vAssert(inf.Term == r.term && inf.Committed == r.commitIndex && inf.LastLogIndex == r.lastLogIndex && inf.LastLogTerm == r.lastLogTerm, tag+"-report-shows-term-commit-last")
+	vAssert(inf.SnapshotIndex == r.snaps.index && inf.FirstLogIndex == a.prev+1 && inf.LastApplied == r.fsm.index, tag+"-report-shows-snapshot-first-applied")
+	vAssert(inf.Configs.Committed.Index == r.configs.Committed.Index && inf.Configs.Latest.Index == r.configs.Latest.Index, tag+"-report-shows-configs")
+	vAssert(inf.State == r.state && inf.Leader == r.leader && inf.NID == r.nid && inf.CID == r.cid, tag+"-report-shows-identity-and-role")
+	// and the property's relations hold in it
+	vAssert(inf.LastApplied <= inf.Committed, tag+"-applied-le-commit")
+	vAssert(inf.Committed <= inf.LastLogIndex, tag+"-commit-le-last")
+	vAssert(inf.FirstLogIndex-1 <= inf.SnapshotIndex && inf.SnapshotIndex <= inf.LastLogIndex, tag+"-first-1-le-snapshot-le-last")
+	vAssert(inf.Configs.Committed.Index <= inf.Configs.Latest.Index, tag+"-committed-config-le-latest-config")
 	vAssert(r.lastLogIndex == a.last(), tag+"-last-index-tracks-log")
 }
 
